@@ -65,6 +65,10 @@ def run_case(case):
         return {"failures": failures}
     alphabet = sorted(R.alphabet, key=repr)
     words = words_upto(alphabet + [gen_fa.FOREIGN], 3)
+    # ---- self-test of the reference: the two ways of computing the bounded language must agree
+    if {w for w in words if R.accepts(w)} != R.words_upto(3, alphabet + [gen_fa.FOREIGN]):
+        from vlib.common import HarnessError
+        raise HarnessError("reference NFA: accepts() and words_upto() disagree on %r" % (d,))
     # ---- (a) accepts
     with guard(failures, "accepts"):
         for w in words:
